@@ -274,7 +274,7 @@ func checkHasPath(rep *lib.Report, shape string) {
 	// not observable without editing it; its growth is)
 	measure := func(f *ssa.Function) time.Duration {
 		best := time.Duration(1 << 62)
-		for i := 0; i < 3; i++ {
+		for i := 0; i < 7; i++ {
 			t0 := time.Now()
 			lang.HasPathTo(f.Blocks[0], foreign, nil)
 			if d := time.Since(t0); d < best {
